@@ -91,6 +91,24 @@ def sym_file_format(vc):
                 s = f.attrs['descriptor'].d.get('serializer')
                 want = SER.d.get(t, dflt)
                 check(it, 'serializer-by-type[%s,%s]' % (fmt, t), s is want)
+            # with a temporal_format_property: ONLY temporal fields carrying that property get a custom strftime serializer;
+            # every other field -- temporal or not, whatever precedes it in the schema -- keeps the serializer of its type
+            types2 = ['time', 'datetime', 'string', 'date', 'date', 'integer']
+            schema2, fields2 = mk_schema(it, types2)
+            fields2[0].attrs['descriptor'].d['outputFormat'] = '%H.%M'
+            fields2[4].attrs['descriptor'].d['outputFormat'] = '%d/%m/%y'
+            it.call(cls, [Opaque('file', 'outfile2'), schema2], {'temporal_format_property': 'outputFormat'})
+            for j, (f, t) in enumerate(zip(fields2, types2)):
+                s = f.attrs['descriptor'].d.get('serializer')
+                if j in (0, 4):
+                    from contracts.C07 import mk_temporal
+                    tv = mk_temporal(it, t, aware=False)
+                    SF = z3.Function('strftime', StrS, z3.IntSort(), StrS, StrS)
+                    out = it.call(s, [tv]) if s is not None else None
+                    check(it, 'custom-temporal-format-applied-to-the-field-that-carries-it[%s,%d:%s]' % (fmt, j, t),
+                          out is not None and term(out, StrS) == SF(z3.StringVal(t), tv.term, z3.StringVal(f.attrs['descriptor'].d['outputFormat'])))
+                else:
+                    check(it, 'serializer-by-type-with-a-temporal-format-property[%s,%d:%s]' % (fmt, j, t), s is SER.d.get(t, dflt))
             # one row through write_row: null / preserved missing value / serialised
             serd = {}
             for f in fields:
@@ -158,6 +176,13 @@ def sym_type_tables(vc):
                 check(it, '%s-%s-module-formats-are-the-twins-T10-covers' % (name, kind),
                       ej.attrs.get(ff) == FORMATS[ff] and ej.attrs.get(pf) == FORMATS[pf]
                       and str(ej.attrs.get(ff)).replace('%04Y', '%Y') == ej.attrs.get(pf))
+        # JSON: a number (Decimal after casting) is not JSON serialisable as it is: the table must map it to float, and a
+        # duration to its ISO text
+        js = mj.attrs['JSONFormat'].attrs['SERIALIZERS']
+        numser = entry(it, 'json-serializers', js, 'number')
+        if numser is not None:
+            check(it, 'json-number-written-as-float', getattr(numser, 'name', None) == 'float')
+        entry(it, 'json-serializers', js, 'duration')
         # CSV: booleans go through str(): 'True' / 'False' must be exactly the stamped true/false values
         b = cls = mc.attrs['CSVFormat']
         d = b.attrs['PYTHON_DIALECT'].d
@@ -366,6 +391,65 @@ def nat_roundtrip(h):
             same = len(r1) == len(r2) and all(len(x) == len(y) and all({k: norm(v) for k, v in p.items()} == {k: norm(v) for k, v in q.items()}
                                                                        for p, q in zip(x, y)) for x, y in zip(r1, r2))
             h.check(same, 'round-trip:rows', cfg, r1, r2)
+            # second claim of the property: every written data file decodes to the entered values using NOTHING BUT the
+            # written descriptor (dialect, format, missingValues) -- an independent reader, not load()
+            import zipfile, io, json as _json, tableschema
+            if zipped:
+                zf = zipfile.ZipFile(os.path.join(d, 'o.zip'))
+                wdesc = _json.loads(zf.read('datapackage.json'))
+                rd = lambda pth: zf.read(pth)
+            else:
+                wdesc = _json.load(open(os.path.join(d, 'o', 'datapackage.json')))
+                rd = lambda pth: open(os.path.join(d, 'o', pth), 'rb').read()
+            for rdesc, rows_in in zip(wdesc['resources'], r1):
+                raw = rd(rdesc['path']).decode(rdesc.get('encoding', 'utf-8'))
+                schema = tableschema.Schema(rdesc['schema'])
+                names = [f.name for f in schema.fields]
+                if rdesc.get('format') == 'csv':
+                    dia = rdesc.get('dialect', {})
+                    lt, dl, qc = dia.get('lineTerminator', '\r\n'), dia.get('delimiter', ','), dia.get('quoteChar', '"')
+                    # split into records at the STAMPED line terminator outside quotes; any other line break outside quotes
+                    # means the file does not follow its own dialect
+                    recs, cur, inq, i, stray = [], '', False, 0, False
+                    while i < len(raw):
+                        ch = raw[i]
+                        if ch == qc:
+                            inq = not inq
+                            cur += ch
+                            i += 1
+                        elif not inq and raw.startswith(lt, i):
+                            recs.append(cur)
+                            cur = ''
+                            i += len(lt)
+                        else:
+                            if not inq and ch in '\r\n':
+                                stray = True
+                            cur += ch
+                            i += 1
+                    h.check(not stray and cur == '', 'descriptor-only:csv-framing', cfg, 'records end with the stamped lineTerminator %r' % lt,
+                            'stray line break outside quotes' if stray else 'trailing garbage %r' % cur[:30])
+                    if stray or cur != '':
+                        continue
+                    import csv as _csv
+                    cells = [next(_csv.reader(io.StringIO(rec, newline=''), delimiter=dl, quotechar=qc,
+                                              doublequote=dia.get('doubleQuote', True), skipinitialspace=dia.get('skipInitialSpace', False)))
+                             if rec != '' else [''] for rec in recs]
+                    header, body = cells[0], cells[1:]
+                    missing = rdesc['schema'].get('missingValues', [''])
+
+                    def decode_csv(header=header, body=body, names=names, schema=schema, missing=missing):
+                        out = []
+                        for row in body:
+                            by_name = dict(zip(header, row))
+                            vals = [by_name.get(n) for n in names]
+                            out.append(dict(zip(names, schema.cast_row(vals))))
+                        return out
+                    dec = h.run(decode_csv)
+                else:
+                    dec = h.run(lambda: [dict(zip(names, schema.cast_row([row.get(n) for n in names]))) for row in _json.loads(raw)])
+                okd = dec[0] == 'ok' and len(dec[1]) == len(rows_in) and all(
+                    {k: norm(v) for k, v in p.items()} == {k: norm(v) for k, v in q.items()} for p, q in zip(rows_in, dec[1]))
+                h.check(okd, 'descriptor-only:values', cfg, rows_in, dec[1] if dec[0] == 'ok' else dec[:2])
         finally:
             shutil.rmtree(d, ignore_errors=True)
 
@@ -383,7 +467,16 @@ def nat_findings(h):
         Flow([{'b': 'x', 'a': 1}], dump_to_path(os.path.join(d, 'b'), format='json')).process()
         r = h.run(lambda: Flow(load(os.path.join(d, 'b', 'datapackage.json'))).results()[0][0])
         h.check(r[0] == 'ok' and r[1] == [{'b': 'x', 'a': 1}], 'json', "fields ['b','a']", [{'b': 'x', 'a': 1}], r[:2])
-        h.cur = h.cur.replace('/json-field-order', '')
+        h.cur = h.cur.replace('/json-field-order', '/crlf-in-cell')
+        # a CRLF inside a string cell: the written file keeps it (checked by the descriptor-only decode below), load() does not
+        Flow([{'s': 'two\r\nlines', 'n': 1}], dump_to_path(os.path.join(d, 'c'))).process()
+        r = h.run(lambda: Flow(load(os.path.join(d, 'c', 'datapackage.json'))).results()[0][0])
+        h.check(r[0] == 'ok' and r[1] == [{'s': 'two\r\nlines', 'n': 1}], 'csv', "'two\\r\\nlines'", "'two\\r\\nlines'", r[1] if r[0] == 'ok' else r[:2])
+        h.cur = h.cur.replace('/crlf-in-cell', '')
+        import csv as _csv, io
+        raw = open(os.path.join(d, 'c', 'res_1.csv'), 'rb').read().decode('utf-8')
+        cells = list(_csv.reader(io.StringIO(raw, newline='')))
+        h.check(cells == [['s', 'n'], ['two\r\nlines', '1']], 'csv-file-keeps-crlf-in-cell', 'two\\r\\nlines', [['s', 'n'], ['two\r\nlines', '1']], cells)
     finally:
         shutil.rmtree(d, ignore_errors=True)
 
@@ -395,5 +488,7 @@ ITEMS = [
     Item('CSVFormat.writer', sym_csv_writer, [], F + 'format_csv.py::CSVFormat.__init__'),
     Item('JSONFormat.framing', sym_json_framing, [], F + 'format_json.py::JSONFormat.write_transformed_row'),
     Item('FileDumper.rows_processor', DM.sym_rows_processor, [], DM.D + 'file_dumper.py::FileDumper.rows_processor'),
+    Item('DumperBase.insert_hash_in_path', DM.sym_insert_hash_in_path, [], DM.D + 'dumper_base.py::DumperBase.insert_hash_in_path'),
+    Item('ZipDumper', DM.sym_zip_dumper, [], DM.D + 'to_zip.py::ZipDumper.write_file_to_output'),
     Item('PathDumper.write_file_to_output', DM.sym_write_file_to_output, [], DM.D + 'to_path.py::PathDumper.write_file_to_output'),
 ]
